@@ -2,7 +2,10 @@ package main
 
 import (
 	"fmt"
+	"net/http"
+	"net/url"
 	"strings"
+	"time"
 
 	pongo2 "github.com/flosch/pongo2/v6"
 )
@@ -85,6 +88,9 @@ func suiteC19(cfg Config, res *Result) {
 		"{% autoescape off %}{% set q = V %}{{ q }}{% endautoescape %}",
 		"{% autoescape off %}{% macro m(a) %}{{ a }}{% endmacro %}{{ m(V) }}{% endautoescape %}",
 		"{% autoescape off %}{% macro m(a=V) %}{{ a }}{% endmacro %}{{ m() }}{% endautoescape %}",
+		// a default is evaluated where the macro is defined: names in it are the surrounding scope's, also when they are parameter names
+		"{% autoescape off %}{% macro m(s, n, a=V) %}{{ a }}{% endmacro %}{{ m(\"OTHER\", 99) }}{% endautoescape %}",
+		"{% autoescape off %}{% macro m(t, l, i, a=V) %}{{ a }}{% endmacro %}{% with z=1 %}{{ m(\"OTHER\", nl, 7) }}{% endwith %}{% endautoescape %}",
 		"{% autoescape off %}{% firstof V \"\" %}{% endautoescape %}",
 		"{% autoescape off %}{% for q in l %}{% if forloop.First %}{{ V }}{% endif %}{% endfor %}{% endautoescape %}",
 		"{% autoescape off %}{% include \"p.tpl\" with q=V %}{% endautoescape %}",
@@ -234,6 +240,7 @@ func suiteC19(cfg Config, res *Result) {
 		}
 		return nil
 	})
+	c19Methods(res)
 	// unregistered names never render silently
 	for _, src := range []string{"{{ s|nosuchfilter }}", "{% nosuchtag %}", "{% if s|nosuchfilter %}x{% endif %}", "{{ s|upper|nosuch:1 }}", "{% endif %}", "{% with a=s|nosuch %}{% endwith %}"} {
 		r := implRender(src, ct.Go())
@@ -267,4 +274,40 @@ func suiteC19(cfg Config, res *Result) {
 		res.add(Finding{Kind: "oracle", Proj: "chain", Sig: "c19-refused-registration-changed-registry", Case: "upper after refused RegisterFilter", Impl: r.String(), Model: "A"})
 	}
 	res.Cases += 5
+}
+
+type c19Tags []string
+
+func (t c19Tags) Join(sep string) string { return strings.Join(t, sep) }
+func (t c19Tags) Count() int             { return len(t) }
+
+type c19Level int
+
+func (l c19Level) Name() string { return []string{"low", "mid", "high"}[int(l)%3] }
+
+type c19Label string
+
+func (l c19Label) Shout() string { return strings.ToUpper(string(l)) + "!" }
+
+// c19Methods: a chain applies to whatever the term before it evaluates to, and a filter argument
+// is any term — including the result of a method of a named map, slice or scalar type
+func c19Methods(res *Result) {
+	ctx := pongo2.Context{"q": url.Values{"k": {"v1", "v2"}, "e": {""}}, "hdr": http.Header{"X-A": {"Hv"}}, "d": 90 * time.Second, "tags": c19Tags{"a", "b"},
+		"lvl": c19Level(2), "lab": c19Label("hey"), "s": "x"}
+	for _, c := range [][2]string{
+		{`{{ q.Get("k")|upper }}`, "V1"}, {`{{ q.Get("k")|upper|add:"!" }}`, "V1!"}, {`{{ s|add:q.Get("k") }}`, "xv1"}, {`{{ s|add:q.Get("k")|upper }}`, "XV1"},
+		{`{{ q.Get("nosuch")|default:"d" }}`, "d"}, {`{{ q.Encode()|cut:"=" }}`, "e&kv1&kv2"}, {`{{ q.k|join:"+" }}`, "v1+v2"}, {`{{ q.Has("k")|yesno }}`, "yes"},
+		{`{{ hdr.Get("X-A")|lower }}`, "hv"}, {`{{ d.String()|upper }}`, "1M30S"}, {`{{ d.Minutes()|floatformat:1 }}`, "1.5"}, {`{{ d.Seconds()|integer|add:1 }}`, "91"},
+		{`{{ tags.Join("-")|upper }}`, "A-B"}, {`{{ tags.Count()|add:1 }}`, "3"}, {`{{ tags|join:"," }}`, "a,b"}, {`{{ tags.0|upper }}`, "A"}, {`{{ s|add:tags.Join("") }}`, "xab"},
+		{`{{ lvl.Name()|capfirst }}`, "High"}, {`{{ lvl|add:1 }}`, "3"}, {`{{ lab.Shout()|lower }}`, "hey!"}, {`{{ lab|upper }}`, "HEY"},
+		{`{% filter add:q.Get("k") %}x{% endfilter %}`, "xv1"}, {`{% filter add:tags.Join("") |upper %}x{% endfilter %}`, "XAB"}, {`{% filter cut:lvl.Name() %}a high b{% endfilter %}`, "a  b"},
+		{`{% if q.Get("k")|length == 2 %}y{% endif %}`, "y"}, {`{% with w=d.String()|upper %}{{ w }}{% endwith %}`, "1M30S"}, {`{% for c in tags.Join("")|make_list %}{{ c }}.{% endfor %}`, "a.b."},
+	} {
+		res.Cases++
+		res.DistinctNontrivial++
+		r := implRender("{% autoescape off %}"+c[0]+"{% endautoescape %}", ctx)
+		if r.Err != "" || r.Panicked || r.Out != c[1] {
+			res.add(Finding{Kind: "oracle", Proj: "chain", Sig: "c19-chain-on-method-result", Case: c[0], Impl: r.String(), Model: "ok " + hx(c[1])})
+		}
+	}
 }
